@@ -41,4 +41,12 @@ CHECKS = {
         "exactly 'outside the window or scheme flag', and the parent class dictionaries are untouched; scrypt block_size/parallelism.",
    note="Trusted: z3; rng stub contract; message formatting of symbolic ints replaced by placeholders inside norm_integer/using. "
         "Outside: float/percent vary_rounds; ident/variant settings."),
+ "C04": dict(engine="E1-zshadow", category="other", design_ref="DESIGN.md §4 C04",
+   technique="exhaustive path exploration of the real CryptContext constructor and decision methods over symbolic limits + z3 entailment against a policy model",
+   text="Real CryptContext objects are built from templates whose per-scheme and per-category cost limits/defaults, category "
+        "overrides (symbolically present or absent), stored cost and password correctness are symbolic; z3 proves every path's "
+        "identify/default-scheme/needs_update/hash/verify_and_update outcome equals the policy model transcribed from the statement, "
+        "including 'a fresh hash never needs an update', and that refusals occur only for inconsistent configurations.",
+   note="Trusted: z3; scheme digest/parse/render stubs (listed in evidence) - those parts are C02/C07. Bound: 4 templates, 2-3 schemes, "
+        "one override category. Outside: INI text, float vary_rounds."),
 }
